@@ -9,6 +9,7 @@ import VsgProofs.Lemmas.BaseWsLines
 import VsgProofs.Lemmas.BaseBindEffects
 import VsgProofs.Lemmas.PostPhase1
 import VsgProofs.Lemmas.BaseCaseTok
+import VsgProofs.Lemmas.BaseStructDispatch
 namespace Vsgm.C07
 open Vsgm
 
@@ -205,5 +206,70 @@ theorem bfix_case_crSeq (owner : String) (params action : Base.KV) (old new : Li
     simpa [List.map_map, Function.comp_def] using this
 
 /-! ### END ag_bcase -/
+
+/-! ### BEGIN ag_bstruct (insert / remove / parens / split / multiline alignment) -/
+
+/-! ### layer B: line breaks under the structure family and the remaining alignment fixers -/
+
+/-- the remaining alignment fixers (`multiline_alignment_between_tokens`, `multiline_array_alignment`,
+    `multiline_conditional_alignment`, `align_consecutive_lines_after_line_starting_with_token_and_stopping_with_token`):
+    for EVERY action and token list — even when the rewritten first token is not whitespace — the
+    number of line breaks is unchanged -/
+theorem bfix_alignMulti_crSeq (E : Base.Env) (owner : String) (o : Base.SOwner) (params action : Base.KV)
+    (old new : List Tok) (ho : Base.sownerOf owner = some o) (hal : o.isAlign = true)
+    (h : Base.fixStruct E owner params action old = some (.ok new)) : crSeq new = crSeq old := by
+  unfold Base.fixStruct at h
+  simp only [ho, Option.map_some, Option.some.injEq] at h
+  exact Base.fixS_align_crSeq E o params action old new hal h
+
+/-- insert family, `action: add`: the optional keyword / end name goes onto an existing line — the line
+    breaks are kept (unless a designated token is itself a line break; none of the pinned parameters is) -/
+theorem bfix_insert_crSeq (E : Base.Env) (owner : String) (o : Base.SOwner) (params action : Base.KV)
+    (old new : List Tok) (ho : Base.sownerOf owner = some o) (hi : o.isInsert = true)
+    (hm : Base.removeMode o params = false)
+    (h : Base.fixStruct E owner params action old = some (.ok new))
+    (hd : ∀ ins, Base.designated E o params action = .ok (some ins) → crSeq ins = []) :
+    crSeq new = crSeq old := by
+  unfold Base.fixStruct at h
+  simp only [ho, Option.map_some, Option.some.injEq] at h
+  rcases Base.fixS_insert_add Base.projCr E o params action old new hi hm h with h | ⟨ins, hd', hs⟩
+  · rw [h]
+  · have : Base.InsSeg [] (crSeq old) (crSeq new) := by
+      have := hd ins hd'
+      simp only [Base.projCr] at hs
+      rw [this] at hs; exact hs
+    exact this.nil.symm
+
+/-- insert family, `action: remove`, on the two tokens the extractor delivers: line breaks kept unless
+    the removed optional token is itself a line break -/
+theorem bfix_optional_remove_crSeq (E : Base.Env) (owner : String) (o : Base.SOwner) (params action : Base.KV)
+    (a t : Tok) (new : List Tok) (ho : Base.sownerOf owner = some o) (hi : o.isInsert = true)
+    (hne : o ≠ .tokensRightOf) (hm : Base.removeMode o params = true)
+    (h : Base.fixStruct E owner params action [a, t] = some (.ok new)) (ht : t.isCr = false) :
+    crSeq new = crSeq [a, t] := by
+  unfold Base.fixStruct at h
+  simp only [ho, Option.map_some, Option.some.injEq] at h
+  obtain ⟨t0, rest, hl, hn⟩ := Base.fixS_insert_remove E o params action [a, t] new hi hne hm h
+  cases hl
+  subst hn
+  by_cases hw : (a.kind == Kind.ws) = true
+  · have hk : a.kind = .ws := by simpa using hw
+    have ha : a.isCr = false := by simp [Tok.isCr, hk]
+    simp [hw, crSeq, ht, ha]
+  · simp [hw, crSeq, ht]
+
+/-- `if_002`, `parenthesis: insert`: no line break added or removed -/
+theorem bfix_parens_insert_crSeq (E : Base.Env) (params action : Base.KV) (old new : List Tok)
+    (hp : Base.strIs params "parenthesis" "insert" = true)
+    (h : Base.fixS E .if002 params action old = .ok new)
+    (hko : E.kindOf E.openParenCls ≠ .cr) (hkc : E.kindOf E.closeParenCls ≠ .cr) :
+    crSeq new = crSeq old := by
+  unfold Base.fixS at h
+  simp only [hp] at h
+  obtain ⟨_, hn⟩ := Base.Parens.fixV_insert E action old new h
+  subst hn
+  simp [crSeq, Tok.isCr, Base.Env.inst, hko, hkc]
+
+/-! ### END ag_bstruct -/
 
 end Vsgm.C07
